@@ -12,7 +12,7 @@ import (
 func main() {
 	vrt.ValidateLayout()
 	hx.Quiet()
-	if len(os.Args) > 1 && os.Args[1] == "smoke" {
+	if len(os.Args) > 1 && (os.Args[1] == "smoke" || os.Args[1] == "selftest") {
 		hx.Smoke()
 		return
 	}
